@@ -298,6 +298,53 @@ def run(ctx):
         ctx.ok("c08.prov", "c08.prov|WallProps.multiplier", "multiplier = multiplier of the wall's space (1 when missing)", ep.loc(ln))
     else:
         ctx.violation("c08.prov", "c08.prov|WallProps.multiplier", "multiplier is %s" % mu, ep.loc(ln))
+    # net area: gross area minus *all* the windows of the wall, wherever they are in the window list (K must not depend on element order)
+    an_f = prog.method("types::opaques::Wall", None, "area_net")
+    asc = Scope(prog, an_f)
+    rns_ = returned_nodes(an_f.body)
+    ctx.require(len(rns_) == 1, "Wall::area_net: one return expression expected")
+    rn_ = strip(asc._rw(rns_[0][1]))
+    oka = False
+    why = show(rn_)[:120]
+    if rn_[0] == "call" and short_callee(rn_[1]) == "fround2" and strip(rn_[2][0])[0] == "bin" and strip(rn_[2][0])[1] == "Sub":
+        sub = strip(rn_[2][0])
+        gross, wins = strip(sub[2]), strip(sub[3])
+        if gross[0] == "call" and short_callee(gross[1]) == "area" and leaf_name(strip(gross[2][0])) == "self" and wins[0] == "call" and short_callee(wins[1]) == "sum":
+            from ..cfgq import inline_helper, iter_chain, closure_id_of, closure_env
+            ch_ = iter_chain(strip(wins[2][0]))
+            steps = list(ch_.steps)
+            src_ = strip(ch_.source)
+            for _ in range(3):
+                if src_[0] == "call":
+                    inl_ = inline_helper(prog, src_)
+                    if inl_ is None:
+                        break
+                    c2 = iter_chain(strip(inl_))
+                    steps = list(c2.steps) + steps
+                    src_ = strip(c2.source)
+                else:
+                    break
+            names_ = [a for a, _ in steps]
+            order_dep = [a for a in names_ if a in ("skip_while", "take_while", "skip", "take", "step_by", "rev", "find", "position")]
+            filters = [c for a, c in steps if a == "filter"]
+            maps = [c for a, c in steps if a == "map"]
+            if order_dep:
+                why = "the windows of a wall are taken from the list with %s: only a contiguous run is subtracted, so windows of the same wall that are stored apart " \
+                      "are counted both as windows and as opaque area (K changes when the window list is reordered)" % order_dep
+            elif leaf_name(src_) == "windows" and len(filters) == 1 and len(maps) == 1:
+                fsc = Scope(prog, prog.fns[closure_id_of(strip(filters[0]))], closure_env(strip(filters[0])), ("elem", "windows", ()), asc) if closure_id_of(strip(filters[0])) in prog.fns else None
+                pr = origin_desc(strip(fsc._rw(returned_nodes(fsc.body)[0][1]))) if fsc is not None and len(returned_nodes(fsc.body)) == 1 else ""
+                mp = strip(maps[0])
+                from ..cfgq import fn_item_of
+                mname = short_callee(fn_item_of(mp) or "") or "closure"
+                if "eq(" in pr and "windows[].wall" in pr and "self.id" in pr and mname in ("area", "closure"):
+                    oka = True
+                else:
+                    why = "windows are selected by `%s` and mapped with %s" % (pr[:60], mname)
+    if oka:
+        ctx.ok("c08.prov", "c08.prov|Wall::area_net", "area_net = round2(area - sum of Window::area over every window with w.wall == self.id, in any list order)", an_f.loc())
+    else:
+        ctx.violation("c08.prov", "c08.prov|Wall::area_net", "Wall::area_net: %s" % why, an_f.loc())
     # the `is_tenv` K filters on is the envelope membership of the statement (same truth table as C11-D2, evaluated here for K's sake)
     from .c11 import check_envelope_membership
     check_envelope_membership(ctx, prog, ep, esc, rule="c08.scope")
